@@ -173,3 +173,12 @@ From Bio.Proofs Require SrcGenProofs.
 Theorem C01_line_length_is_source : Z.of_nat Bio.Model.Fasta.text_line_len = SrcGen.k_fasta_textLineLen.
 Proof. exact SrcGenProofs.text_line_len_is_source. Qed.
 Print Assumptions C01_line_length_is_source.
+
+(* every chunk Fasta.Write hands to the writer is the translated Fprintf call applied to
+   the record's fields: ">%s\n" on the name, "%s\n" on each 80-byte piece *)
+Theorem C01_write_format_is_source : forall r,
+  Bio.Model.Fasta.write_calls r
+  = SrcGen.src_fasta_Write_0 (Bio.Model.Fasta.name r)
+    :: map SrcGen.src_fasta_Write_1 (Bio.Model.Fasta.chunks (Bio.Model.Fasta.seq r)).
+Proof. exact SrcGenProofs.fasta_write_is_source. Qed.
+Print Assumptions C01_write_format_is_source.
